@@ -444,6 +444,23 @@ class _BitReader:
 # ============================================================================
 
 
+
+def _int_to_float_rounding_to_odd(value: int) -> float:
+    """
+    Converts an integer into a double that rounds correctly when it is converted to a narrower IEEE 754 format next.
+    An integer that is not representable as a double is not rounded to the nearest one - that may happen to be exactly
+    halfway between two values of the narrower format, where the second rounding would then go astray - but truncated,
+    with the least significant bit of the significand set (rounding to odd).
+    """
+    out = float(value)
+    if int(out) == value:
+        return out
+    (bits,) = struct.unpack("<Q", struct.pack("<d", out))
+    if abs(int(out)) > abs(value):
+        bits -= 1  # One step towards zero: the magnitude occupies the low bits.
+    return float(struct.unpack("<d", struct.pack("<Q", bits | 1))[0])
+
+
 def _serialize_primitive(writer: _BitWriter, schema: PrimitiveType | VoidType, value: _Value) -> None:
     """
     Serialize a primitive value to bits according to the schema.
@@ -475,7 +492,7 @@ def _serialize_primitive(writer: _BitWriter, schema: PrimitiveType | VoidType, v
             float_value = value
         else:
             try:
-                float_value = float(value)
+                float_value = float(value) if schema.bit_length == 64 else _int_to_float_rounding_to_odd(int(value))
             except OverflowError:
                 int_value = int(value)
                 if schema.cast_mode == PrimitiveType.CastMode.SATURATED:
